@@ -1,17 +1,17 @@
 SPECIFICATION MCSpec
 CONSTANTS
- MaxStep = 1
- StopAt = 1
+ MaxStep = 2
+ StopAt = 2
  Tol = 1
  AuthGate = TRUE
  Regress = TRUE
  Off = 0
- MCCfgs <- C3f
+ MCCfgs <- C3fr
  MaxF = 4
  MaxCrash = 0
  Streams = {1, 2}
- FSteps = {0, 1, 2, 4}
- FAuth = {"ok", "sig"}
+ FSteps = {0, 1, 2, 3, 4}
+ FAuth = {"ok", "sig", "ver"}
 INVARIANTS Safety
 PROPERTIES Monotone
 CHECK_DEADLOCK FALSE
